@@ -169,6 +169,11 @@ TARGET = {"construct": "d", "append": "d", "add_state": "d", "insert": "d", "rem
           "delslice": "d", "clear": "d", "sort": "d", "getitem": "a"}
 
 
+def twin_ok(case):
+    # also run under the second label decoding (common.twin_labels); Matrix kinds index by int
+    return C.no_matrix(case)
+
+
 def run_impl(case):
     from qubovert.sim import AnnealResults, AnnealResult
     regs = [AnnealResults() for _ in range(NREG)]
